@@ -1,8 +1,11 @@
 pub mod wildcard;
+pub mod xmlcanon;
 
 pub fn self_test_all() -> Result<usize, String> {
     let mut n = 0;
     wildcard::self_test()?;
+    n += 1;
+    xmlcanon::self_test()?;
     n += 1;
     Ok(n)
 }
